@@ -53,7 +53,7 @@ theorem publish (capK maxDepth : Nat) (ops : List (Op H K B V)) (op : Op H K B V
     {pend : List (List (K × Entry V))} {b c : B} {k : K} {x : Blk K B V} {v : V} {n : Nat} :
     let s := ((Sys.new capK maxDepth : Sys H K B V).run ops).1
     let T := (Sys.new capK maxDepth : Sys H K B V).treeRun [] ops
-    s.ctx T false op = some (pend, b, k) → pendLookup pend k = none →
+    s.ctx op = some (pend, b, k) → pendLookup pend k = none →
     WalkN T k n b c → n ≤ s.sc.maxDepth → T.find c = some x → alookup x.writes k = some (.val v) →
     (s.step op).2 = .hit v := by
   intro s T hctx hp hwalk hn hx hw
@@ -100,7 +100,7 @@ theorem clone_facts :
     (Verif.Gen.StateCacheFacts.sites.map (fun s => (s.fn, s.kind))).count ("TransactionCache.Set", "store") = 1 ∧
     (Verif.Gen.StateCacheFacts.sites.map (fun s => (s.fn, s.kind))).count ("BlockCache.Set", "store") = 1 ∧
     (Verif.Gen.StateCacheFacts.sites.map (fun s => (s.fn, s.kind))).count ("StateCache.Get", "return") = 1 ∧
-    (Verif.Gen.StateCacheFacts.sites.map (fun s => (s.fn, s.kind))).count ("BlockCache.Get", "return") = 2 ∧
+    (Verif.Gen.StateCacheFacts.sites.map (fun s => (s.fn, s.kind))).count ("BlockCache.Get", "return") = 3 ∧
     (Verif.Gen.StateCacheFacts.sites.map (fun s => (s.fn, s.kind))).count ("TransactionCache.Get", "return") = 2 := by
   decide
 
